@@ -202,10 +202,52 @@ func (c *ExprCtx) Atom(t *rapid.T) model.Expr {
 		k = "cmp"
 	}
 	pi := c.DrawPath(t)
+	scalar := func(p pathInfo) bool { return !p.Found || p.V.T == "S" || p.V.T == "N" || p.V.T == "B" }
+	// most of the time pick operands for which DynamoDB's outcome is certain
+	certain := rapid.IntRange(0, 99).Draw(t, "certain") >= c.IllTyped
+	retry := func(ok func(pathInfo) bool) {
+		for i := 0; i < 6 && certain && !ok(pi); i++ {
+			pi = c.DrawPath(t)
+		}
+	}
+	switch k {
+	case "between", "size":
+		if k == "between" {
+			retry(scalar)
+		} else {
+			retry(func(p pathInfo) bool {
+				return p.Found && (p.V.T == "S" || p.V.T == "B" || p.V.T == "L" || p.V.T == "M" || p.V.T == "SS" || p.V.T == "NS" || p.V.T == "BS")
+			})
+		}
+	case "begins":
+		retry(func(p pathInfo) bool { return !p.Found || p.V.T == "S" || p.V.T == "B" })
+	case "contains":
+		retry(func(p pathInfo) bool {
+			return !p.Found || p.V.T == "S" || p.V.T == "B" || p.V.T == "L" || p.V.T == "SS" || p.V.T == "NS" || p.V.T == "BS"
+		})
+	}
+	sameTyped := func(p pathInfo) model.AV {
+		if p.Found && certain {
+			if rapid.IntRange(0, 9).Draw(t, "sameHit") < 4 {
+				return p.V.Clone()
+			}
+			return c.valueOfType(t, p.V.T)
+		}
+		if !p.Found && certain {
+			return c.valueOfType(t, rapid.SampledFrom([]string{"S", "N", "B"}).Draw(t, "missT"))
+		}
+		return c.near(t, p)
+	}
 	switch k {
 	case "cmp":
 		op := rapid.SampledFrom(cmpOps).Draw(t, "op")
-		v := c.Val(c.near(t, pi))
+		var v model.ValueRef
+		if op == "=" || op == "<>" {
+			v = c.Val(c.near(t, pi))
+		} else {
+			retry(scalar)
+			v = c.Val(sameTyped(pi))
+		}
 		if rapid.IntRange(0, 5).Draw(t, "flip") == 0 {
 			return model.Cmp{Op: op, L: v, R: pi.P}
 		}
@@ -214,7 +256,7 @@ func (c *ExprCtx) Atom(t *rapid.T) model.Expr {
 		p2 := c.DrawPath(t)
 		return model.Cmp{Op: rapid.SampledFrom(cmpOps).Draw(t, "op"), L: pi.P, R: p2.P}
 	case "between":
-		a, b := c.near(t, pi), c.near(t, pi)
+		a, b := sameTyped(pi), sameTyped(pi)
 		if cmp, ok := model.CompareScalar(a, b); ok && cmp > 0 && rapid.IntRange(0, 9).Draw(t, "swap") > 0 {
 			a, b = b, a
 		}
@@ -251,6 +293,8 @@ func (c *ExprCtx) Atom(t *rapid.T) model.Expr {
 			if n == 0 && c.Opts.NoEmptyBin {
 				s = model.Bin([]byte{1})
 			}
+		case pi.Found && certain && (pi.V.T == "S" || pi.V.T == "B"):
+			s = c.valueOfType(t, pi.V.T)
 		default:
 			s = c.valueOfType(t, rapid.SampledFrom([]string{"S", "S", "B"}).Draw(t, "bwT"))
 		}
@@ -272,6 +316,14 @@ func (c *ExprCtx) Atom(t *rapid.T) model.Expr {
 			o = model.Bin(rapid.SampledFrom(pi.V.BS).Draw(t, "cM"))
 		case pi.Found && pi.V.T == "L" && hit && len(pi.V.L) > 0:
 			o = rapid.SampledFrom(pi.V.L).Draw(t, "cM").Clone()
+		case pi.Found && certain && (pi.V.T == "S" || pi.V.T == "B"):
+			o = c.valueOfType(t, pi.V.T)
+		case pi.Found && certain && pi.V.T == "SS":
+			o = c.valueOfType(t, "S")
+		case pi.Found && certain && pi.V.T == "NS":
+			o = c.valueOfType(t, "N")
+		case pi.Found && certain && pi.V.T == "BS":
+			o = model.Bin(Bytes(false).Draw(t, "cB"))
 		default:
 			o = c.valueOfType(t, rapid.SampledFrom([]string{"S", "N", "B", ""}).Draw(t, "cT"))
 		}
@@ -284,7 +336,7 @@ func (c *ExprCtx) Atom(t *rapid.T) model.Expr {
 
 // Cond draws a condition expression of at most the given depth.
 func (c *ExprCtx) Cond(t *rapid.T, depth int) model.Expr {
-	if depth <= 0 || rapid.IntRange(0, 9).Draw(t, "leaf") < 4 {
+	if depth <= 0 || rapid.IntRange(0, 9).Draw(t, "leaf") < 3 {
 		return c.Atom(t)
 	}
 	switch rapid.IntRange(0, 5).Draw(t, "comb") {
